@@ -32,7 +32,7 @@ LAYOUTS = ("own", "multi", "inline", "shared")
 
 def plan(tier, seed):
     jobs = []
-    reps = 2 if tier == "quick" else 12
+    reps = 4 if tier == "quick" else 14
     # systematic sweep: suffix x form x layout x eol x multibyte
     for suffix in langs.ALL_SUFFIXES:
         lang = langs.LANGS[langs.SUFFIX_LANG[suffix]]
@@ -44,7 +44,7 @@ def plan(tier, seed):
                     continue
                 jobs.append({"k": "sweep", "suffix": suffix, "form": form.id, "layout": layout,
                              "seed": seed, "reps": reps, "flavour": "rel"})
-    nrand = 4 if tier == "quick" else 60
+    nrand = 8 if tier == "quick" else 80
     for suffix in langs.ALL_SUFFIXES:
         for i in range(nrand):
             jobs.append({"k": "rand", "suffix": suffix, "i": i, "seed": seed, "n": 20, "flavour": "rel"})
